@@ -28,6 +28,7 @@ import (
 	"github.com/restic/restic/internal/verifshim/gatebe"
 	"github.com/restic/restic/internal/verifshim/oracle"
 	"github.com/restic/restic/internal/verifshim/vh"
+	"github.com/restic/restic/internal/verifshim/vx"
 	"github.com/restic/restic/internal/verifshim/xplore"
 )
 
@@ -178,6 +179,8 @@ func TestVerif_C29(t *testing.T) {
 	base0 := store0.Snapshot()
 	model0 := verifC29Model{keys: map[string]string{}, curPW: "A"}
 	verifC29Attribute(&model0, base0, "A")
+
+	verifC29Concurrent(t, r, base0, model0)
 
 	seen := map[string]bool{}
 	for _, h := range histories {
@@ -362,4 +365,90 @@ func TestVerifRace_C29(t *testing.T) {
 	xplore.Free = 2
 	defer func() { xplore.Free = 0 }()
 	TestVerif_C29(t)
+}
+
+// verifC29Concurrent: two processes, each opened with its own password, remove each other's key at the same
+// time ("the key in use cannot be removed", "keep at least one working key").  Every backend operation of
+// both commands - lock files included, the exclusive lock is what serialises them - is a scheduling point;
+// all interleavings within the preemption bound.  At the end some password must still open the repository.
+func verifC29Concurrent(t *testing.T, r *vh.Run, base0 gatebe.State, model0 verifC29Model) {
+	ctx := context.Background()
+	// fixture: keys for A and B
+	store := gatebe.NewStoreFrom(base0, nil)
+	be := &gatebe.Backend{S: store, Proc: "setup", Conns: 2, AtomicReplace: true}
+	m := model0.clone()
+	curA, _, err := verifC29Current(ctx, base0, verifC29PW["A"])
+	if err != nil {
+		t.Fatal(err)
+	}
+	if err := verifC29Run(t, ctx, r.Scratch, be, m, verifC29Op{"add", "B"}, curA); err != nil {
+		t.Fatalf("C29 concurrent fixture: key add: %v", err)
+	}
+	base := store.Snapshot()
+	verifC29Attribute(&m, base, "B")
+	keyOf := map[string]string{}
+	for n, l := range m.keys {
+		keyOf[l] = n
+	}
+	if keyOf["A"] == "" || keyOf["B"] == "" {
+		t.Fatalf("C29 concurrent fixture: keys %v", m.keys)
+	}
+	type res struct {
+		err  error
+		done bool
+	}
+	type state struct {
+		store *gatebe.Store
+		res   map[string]*res
+	}
+	sc := xplore.Scenario{
+		Start: func(x *xplore.Exec) {
+			st := &state{store: gatebe.NewStoreFrom(base, nil), res: map[string]*res{"PA": {}, "PB": {}}}
+			x.Data = st
+			for _, p := range []struct{ name, pw, target string }{{"PA", "A", keyOf["B"]}, {"PB", "B", keyOf["A"]}} {
+				p := p
+				pbe := &gatebe.Backend{S: st.store, Proc: p.name, Conns: 1, AtomicReplace: true, X: func() *xplore.Exec { return x }} // one connection: the parallel loaders of lock and key files run one after the other
+				x.Go(p.name, func() {
+					gopts := verifGopts(t, r.Scratch, pbe, verifC29PW[p.pw])
+					st.res[p.name].err = verifRun(t, x.Ctx, gopts, func(ctx context.Context, gopts global.Options) error {
+						return runKeyRemove(ctx, gopts, []string{p.target}, gopts.Term)
+					})
+					st.res[p.name].done = true
+				})
+			}
+		},
+	}
+	check := func(x *xplore.Exec) {
+		st := x.Data.(*state)
+		final := st.store.Snapshot()
+		names := verifC29KeyNames(final)
+		r.State(strings.Join(x.Trace, ">"))
+		r.Outcome(fmt.Sprintf("concurrent-remove keys-left=%d errA=%v errB=%v", len(names), st.res["PA"].err != nil, st.res["PB"].err != nil))
+		if st.res["PA"].err != nil || st.res["PB"].err != nil {
+			r.Nontrivial(strings.Join(x.Trace, ">"))
+		}
+		var bad []string
+		for _, p := range x.Panics {
+			bad = append(bad, "panic: "+p)
+		}
+		if x.Deadlock {
+			bad = append(bad, "deadlock")
+		}
+		if len(bad) == 0 {
+			working := 0
+			for _, l := range []string{"A", "B"} {
+				if _, _, err := verifC29Current(ctx, final, verifC29PW[l]); err == nil {
+					working++
+				}
+			}
+			if working == 0 {
+				bad = append(bad, fmt.Sprintf("locked-out: after two concurrent `key remove` commands (A removes B's key: err=%v, B removes A's key: err=%v) %d key files are left and neither password opens the repository", st.res["PA"].err, st.res["PB"].err, len(names)))
+			}
+		}
+		if len(bad) > 0 {
+			vx.Violation(r, "concurrent-key-remove", x, "C29|concurrent-key-remove|"+strings.SplitN(bad[0], ":", 2)[0], strings.Join(bad, "\n"), nil)
+		}
+	}
+	stt := vx.Explore(r, t, "concurrent-key-remove", sc, xplore.Options{Policy: xplore.Preempt, Bound: vh.Pick(r, 2, 3), MaxSteps: 400}, check)
+	r.Note("concurrent-key-remove: execs(this shard)=%d", stt.Execs)
 }
